@@ -181,12 +181,12 @@ func runC11(c *Ctx) {
 	}
 	for _, site := range c.Sites(lMail) {
 		a0, a1 := c.cbArgAt(site, 0), c.cbArgAt(site, 1)
-		R.Ob(c.siteKey(site, "Mail gets the parsed reverse-path"), c.P.InstrPos(site), describe(a0) == "(*parser).parseReversePath(alloc:p)#0", "from is "+describe(a0))
+		R.Ob(c.siteKey(site, "Mail gets the parsed reverse-path"), c.P.InstrPos(site), describe(a0) == "(*parser).parseReversePath(alloc:parser)#0", "from is "+describe(a0))
 		R.Ob(c.siteKey(site, "Mail gets the options built here"), c.P.InstrPos(site), describe(a1) == "alloc:complit", "opts is "+describe(a1))
 	}
 	for _, site := range c.Sites(lRcpt) {
 		a0, a1 := c.cbArgAt(site, 0), c.cbArgAt(site, 1)
-		R.Ob(c.siteKey(site, "Rcpt gets the parsed path"), c.P.InstrPos(site), describe(a0) == "(*parser).parsePath(alloc:p)#0", "to is "+describe(a0))
+		R.Ob(c.siteKey(site, "Rcpt gets the parsed path"), c.P.InstrPos(site), describe(a0) == "(*parser).parsePath(alloc:parser)#0", "to is "+describe(a0))
 		R.Ob(c.siteKey(site, "Rcpt gets the options built here"), c.P.InstrPos(site), describe(a1) == "alloc:complit", "opts is "+describe(a1))
 	}
 
@@ -197,13 +197,13 @@ func runC11(c *Ctx) {
 	}
 	checks := []errCheck{
 		{"(*Conn).handleMail", `cutPrefixFold(param1,"FROM:")#1 == false`, []string{lMail}},
-		{"(*Conn).handleMail", `(*parser).parseReversePath(alloc:p)#1 != nil`, []string{lMail}},
+		{"(*Conn).handleMail", `(*parser).parseReversePath(alloc:parser)#1 != nil`, []string{lMail}},
 		{"(*Conn).handleMail", `parseArgs(parser.s)#1 != nil`, []string{lMail}},
 		{"(*Conn).handleMail", `decodeXtext(next#2)#1 != nil`, []string{"st:MailOptions.EnvelopeID", "st:MailOptions.Auth"}},
 		{"(*Conn).handleMail", `decodeXtext(next#2)#0 == ""`, []string{"st:MailOptions.EnvelopeID"}},
 		{"(*Conn).handleMail", `isPrintableASCII(decodeXtext(next#2)#0) == false`, []string{"st:MailOptions.EnvelopeID"}},
 		{"(*Conn).handleRcpt", `cutPrefixFold(param1,"TO:")#1 == false`, []string{lRcpt}},
-		{"(*Conn).handleRcpt", `(*parser).parsePath(alloc:p)#1 != nil`, []string{lRcpt}},
+		{"(*Conn).handleRcpt", `(*parser).parsePath(alloc:parser)#1 != nil`, []string{lRcpt}},
 		{"(*Conn).handleRcpt", `parseArgs(parser.s)#1 != nil`, []string{lRcpt}},
 		{"(*Conn).handleRcpt", `decodeTypedAddress(next#2)#2 != nil`, []string{"st:RcptOptions.OriginalRecipient", "st:RcptOptions.OriginalRecipientType"}},
 		{"(*Conn).handleRcpt", `decodeTypedAddress(next#2)#1 == ""`, []string{"st:RcptOptions.OriginalRecipient"}},
